@@ -26,6 +26,7 @@ type Frame struct {
 	order    []*ssa.BasicBlock
 	results  []Val // at a return: current result values (for ensures)
 	parent   *Frame
+	label    string // prefix of obligation kinds for inlined frames
 }
 
 type retEdge struct {
@@ -224,7 +225,7 @@ func (e *Engine) enterLoop(fr *Frame, li *loopInfo, st *State) *State {
 	if lc != nil && e.dry == 0 {
 		for i, inv := range lc.Invariants {
 			g := e.evalBool(inv.Expr, e.envAt(fr, st, li))
-			e.oblige(st, fmt.Sprintf("inv-entry/%d.%d", li.ordinal, i+1), g, inv.Pos, "loop invariant holds on entry: "+inv.Src, inv.Tags)
+			e.oblige(st, fr.label+fmt.Sprintf("inv-entry/%d.%d", li.ordinal, i+1), g, inv.Pos, "loop invariant holds on entry: "+inv.Src, inv.Tags)
 		}
 	}
 	// write set of the loop body by a dry run
@@ -354,7 +355,7 @@ func (e *Engine) closeLoop(fr *Frame, li *loopInfo, st *State) {
 	}
 	for i, inv := range lc.Invariants {
 		g := e.evalBool(inv.Expr, e.envAt(fr, st, li))
-		e.oblige(st, fmt.Sprintf("inv-preserved/%d.%d", li.ordinal, i+1), g, inv.Pos, "loop invariant preserved: "+inv.Src, inv.Tags)
+		e.oblige(st, fr.label+fmt.Sprintf("inv-preserved/%d.%d", li.ordinal, i+1), g, inv.Pos, "loop invariant preserved: "+inv.Src, inv.Tags)
 	}
 	if len(lc.Decreases) > 0 {
 		// lexicographic decrease, each component bounded below by 0
@@ -368,7 +369,7 @@ func (e *Engine) closeLoop(fr *Frame, li *loopInfo, st *State) {
 			disj = append(disj, and(prefixEq, sx("<", news[i], li.variant[i]), sx("<=", "0", li.variant[i])))
 			prefixEq = and(prefixEq, eq(news[i], li.variant[i]))
 		}
-		e.oblige(st, fmt.Sprintf("variant/%d", li.ordinal), or(disj...), lc.Decreases[0].Pos, "loop variant decreases: "+lc.Decreases[0].Src, lc.Decreases[0].Tags)
+		e.oblige(st, fr.label+fmt.Sprintf("variant/%d", li.ordinal), or(disj...), lc.Decreases[0].Pos, "loop variant decreases: "+lc.Decreases[0].Src, lc.Decreases[0].Tags)
 	}
 }
 
